@@ -852,3 +852,19 @@ where
         self.peer_appenders.iter().any(|entry| !entry.value().task_handle.is_finished())
     }
 }
+
+/// Verification hook (only with `--cfg d_engine_verif`): public constructor that calls exactly
+/// `GrpcTransport::new_with_channels`, the function `NodeBuilder` uses. Adds no behaviour.
+#[cfg(d_engine_verif)]
+impl<T> GrpcTransport<T>
+where
+    T: TypeConfig,
+{
+    pub fn verif_new(
+        node_id: u32,
+        peer_failure_tx: mpsc::Sender<u32>,
+        peer_success_tx: mpsc::Sender<u32>,
+    ) -> Self {
+        Self::new_with_channels(node_id, peer_failure_tx, peer_success_tx)
+    }
+}
